@@ -263,7 +263,18 @@ class ExecutionContext:
                         case LinearIR.OpCode.VECTOR_MUL_SCALAR:
                             localScope[ref] = [v * op2 for v in op1]
                         case LinearIR.OpCode.VECTOR_DIV_SCALAR:
-                            localScope[ref] = [v / op2 for v in op1]
+                            if isinstance(
+                                instruction.Type.ElementType, LinearIR.IntegerType
+                            ):
+                                # Integer division truncates toward zero
+                                localScope[ref] = [
+                                    -(abs(v) // abs(op2))
+                                    if (v < 0) != (op2 < 0)
+                                    else abs(v) // abs(op2)
+                                    for v in op1
+                                ]
+                            else:
+                                localScope[ref] = [v / op2 for v in op1]
                         case LinearIR.OpCode.MATRIX_MUL_MATRIX:
                             localScope[ref] = self.__MatrixMatrixMultiply(
                                 instruction.Type.Shape, op1, op2
